@@ -4,7 +4,7 @@ use crate::flowbox::*;
 use crate::util::*;
 use serde_json::{json, Value};
 
-const STATUSES: [u16; 14] = [200, 201, 204, 206, 301, 302, 303, 304, 307, 308, 399, 403, 404, 500];
+const STATUSES: [u16; 17] = [200, 201, 204, 206, 301, 302, 303, 304, 307, 308, 399, 403, 404, 500, 205, 417, 203];
 
 fn fin_from(v: &Value, vsel: usize) -> FinCfg {
     let cell = &v["cell"];
@@ -350,7 +350,7 @@ pub fn c10(o: &Opts, t: &mut Tracer) -> Value {
     let mut n = 0u64;
     let methods = ["GET", "HEAD", "POST", "PUT", "CONNECT"];
     let handshakes = ["none", "100", "timeout", "late100", "refuseBare", "refuseFields", "refuseFieldsClose", "stray100"];
-    let statuses = [200u16, 204, 302, 304, 403, 205, 201, 500];
+    let statuses = [200u16, 204, 302, 304, 403, 205, 201, 500, 417];
     let framings = [("absent", "absent"), ("zero", "absent"), ("n", "absent"), ("absent", "chunked"), ("n", "chunked")];
     let conns = ["absent", "close", "keepalive", "two"];
     for ver10 in [false, true] {
